@@ -2,6 +2,7 @@ import HickoryVerif.Drv.Proto
 import HickoryVerif.Model.AuthZone
 import HickoryVerif.Model.AuthZoneDev
 import HickoryVerif.Model.AuthZoneSigned
+import HickoryVerif.Model.AuthZoneSignedDev
 
 /-!
 Case line (see `harness/src/props/c10.rs`):  `q <mode> <origin> <zone> <qname> <qtype> <do>`
@@ -133,8 +134,22 @@ def thmHolds (z : Zone) (o : LName) (q : Query) : Bool :=
     !soaBelowCut z o q && !cnameIntoCut z o q && !anyNotAtOwner z q
   !hyps || conformsModAA (answerImpl z o q) (answerSpec MAX_CNAME_DEPTH z o q)
 
+/-- classes of `Model/AuthZoneSignedDev.lean` (DO=1 on an NSEC-signed zone) -/
+def signedClassesOf (z : Zone) (o : LName) (q : Query) : List String :=
+  (if SDev.nxNoWildcardDenial z o q then ["nsec-no-wildcard-denial"] else []) ++
+  (if SDev.soaQueryWildcardNoProof z o q then ["soa-query-wildcard-no-proof"] else []) ++
+  (if SDev.wildcardExpansionNotProven z o q then ["wildcard-expansion-not-proven"] else [])
+
 def handle (toks : List String) : Option String :=
   match toks with
+  | ["dev", "n", origin, _zone, qname, qtype, dok, store] => do
+    let o ← parseLName origin
+    let z ← parseZone store
+    let qn ← parseLName qname
+    let qt ← parseTy qtype
+    let q : Query := { name := lowerName qn, type := qt }
+    let cs := if dok == "1" then signedClassesOf z o q else []
+    pure ("signed=" ++ showBool (SDev.allSigned z) ++ " sclasses=" ++ (if cs.isEmpty then "-" else ",".intercalate cs))
   | ["dev", "u", origin, zone, qname, qtype, _do] => do
     let o ← parseLName origin
     let z ← parseZone zone
